@@ -379,9 +379,19 @@ func C05(p *core.Program, r *core.Report) {
 			}, core.IsReturn)
 			guard := false
 			for _, c := range core.DominatingConds(a.Block()) {
-				if b, ok := c.V.(*ssa.BinOp); ok && b.Op == token.EQL && c.True {
-					if k, ok := core.ConstInt(b.Y); ok && k == 0 {
-						guard = true
+				// len(selection) == 0 in any of its spellings
+				if b, ok := c.V.(*ssa.BinOp); ok {
+					if lc, isCall := b.X.(*ssa.Call); isCall {
+						if bi, isB := lc.Common().Value.(*ssa.Builtin); isB && bi.Name() == "len" {
+							k, isC := core.ConstInt(b.Y)
+							switch {
+							case !isC:
+							case k == 0 && ((b.Op == token.EQL && c.True) || (b.Op == token.NEQ && !c.True) || (b.Op == token.GTR && !c.True) || (b.Op == token.LEQ && c.True)):
+								guard = true
+							case k == 1 && ((b.Op == token.LSS && c.True) || (b.Op == token.GEQ && !c.True)):
+								guard = true
+							}
+						}
 					}
 				}
 			}
@@ -546,6 +556,7 @@ func checkPerPeerGoroutines(p *core.Program, r *core.Report) {
 
 	checkConstraintsPersisted(p, r)
 	checkFragmentIdentity(p, r)
+	checkPropertiesPersisted(p, r)
 }
 
 // checkFragmentIdentity — necessary for "an accepted bundle is never silently
